@@ -267,6 +267,32 @@ def install(interp):
             return T(pr.f(z3.IntVal(0)), pr.dtype, None, None, pr.eshape, pr.nan_at(z3.IntVal(0)))
         raise Unsupported(f"einops.einsum pattern {pattern!r}")
 
+    def erepeat(x, pattern, **axes):
+        pat = " ".join(pattern.split())
+        if pat == "... -> t ..." and isinstance(x, T) and x.tlen is None and "t" in axes:
+            v, n = x.f, x.nan
+            return T(lambda t: v, x.dtype, axes["t"], "first", x.eshape, (lambda t: n) if n is not None else None)
+        raise Unsupported(f"einops.repeat pattern {pattern!r}")
+
+    def t_bernoulli(p, generator=None):
+        """torch.bernoulli: the draw is an arbitrary boolean except that p = 0 never fires and p = 1 always fires."""
+        ex = cur()
+        nm = ex.fresh_name("bernoulli_draw")
+        if p.tlen is None:
+            b = z3.Bool(nm)
+            ex.assume(z3.And(z3.Implies(p.f <= 0, z3.Not(b)), z3.Implies(p.f >= 1, b)))
+            return T(z3.If(b, z3.RealVal(1), z3.RealVal(0)), "float", None, None, p.eshape)
+        fn = z3.Function(nm, z3.IntSort(), z3.BoolSort())
+        pf = p.f
+        tq = z3.Int(ex.fresh_name("tq"))
+        ex.keepalive.append(fn)
+        p._bern = (fn, pf)
+        r = T(lambda t: z3.If(z3.And(fn(t), z3.Not(pf(t) <= 0)) if True else fn(t), z3.RealVal(1), z3.RealVal(0)), "float", p.tlen, p.taxis, p.eshape)
+        r._bern_fn = fn
+        return r
+
+    table["bernoulli"] = t_bernoulli
+
     def ereduce(x, pattern, reduction, **axes):
         """einops.reduce over the leading axis of a LIST of equally shaped tensors ('s ... -> ...'): element-wise
         combination; the variant 's ... -> () ...' additionally inserts a unit axis in front."""
@@ -298,4 +324,4 @@ def install(interp):
             return T(r, "float", None, None, es)
         raise Unsupported(f"einops.reduce pattern {pattern!r}")
 
-    interp.namespaces["einops"] = Namespace("einops", dict(rearrange=rearrange, einsum=einsum, reduce=ereduce))
+    interp.namespaces["einops"] = Namespace("einops", dict(rearrange=rearrange, einsum=einsum, reduce=ereduce, repeat=erepeat))
